@@ -32,7 +32,8 @@ int  sched_all_finished(void);
 int  sched_any_enabled(void);
 int  sched_spawn(void *(*fun)(void *), void *arg);   /* controller creates a thread (parks at START) */
 int  sched_self(void);
-extern int sched_fail_create_at;   /* k-th shim_create (1-based) fails with EAGAIN; 0 = never */
+extern int sched_fail_create_at;
+extern int sched_yield_on_unlock;  /* 1: every mutex unlock is a preemption point */   /* k-th shim_create (1-based) fails with EAGAIN; 0 = never */
 
 #ifndef VERIF_SCHED_IMPL
 #define pthread_mutex_init(m, a)     shim_mutex_init((void *)(m))
